@@ -17,6 +17,14 @@ LOGB = z3.Function('logb', R, R, R)     # logb(x, base)
 EXP = z3.Function('exp', R, R)
 LN = z3.Function('ln', R, R)
 
+UF_USED = [False]  # set as soon as one of the uninterpreted real functions is applied (solver front end adds their axioms)
+
+
+def _uf(f, *a):
+    UF_USED[0] = True
+    return f(*a)
+
+
 _hook = None     # set by the interpreter: callable(cond_z3, excname) for implicit exceptions
 
 
@@ -298,7 +306,7 @@ def power(a, b):
             r = binop('*', r, a)
         return r
     if b == Fraction(1, 2):
-        return mk(SQRT(z3real(a)), 'real')
+        return mk(_uf(SQRT, z3real(a)), 'real')
     if not isinstance(a, Sym) and not isinstance(b, Sym) and isinstance(b, int):
         return Fraction(a) ** b
     raise Unsupported('power %r ** %r' % (a, b))
